@@ -102,4 +102,32 @@ theorem refines_BlockCreateStats : Refines (SrcBlk.BlockCreateStats false) block
     dictK refines_CreatorStats 256,
     augK (x := Src.CreatorStats false) (y := Rd.loadUint 32) refines_CreatorStats (refines_uint 32 (by decide)) 256]
 
+/-! ### masterchain state extra -/
+
+theorem refines_ConfigParams : Refines (SrcBlk.ConfigParams false) configParams view_ConfigParams := by
+  apply RefinesP.toRefines
+  tx_refine [configParams, SrcBlk.ConfigParams, view_ConfigParams, ref_dec, hashmapSK refines_refSlice 32]
+
+theorem nonUnit_extBlkRef : NonUnit extBlkRef := by unfold extBlkRef; tlb_nonunit
+theorem nonUnit_blockCreateStats : NonUnit blockCreateStats := by unfold blockCreateStats; tlb_nonunit
+
+theorem refines_McStateExtra : Refines (SrcBlk.McStateExtra false) mcStateExtra view_McStateExtra := by
+  rintro ⟨bits, refs⟩ v s'
+  tx_struct [mcStateExtra, shardHashes]
+  repeat' (first
+    | apply And.intro
+    | (intro h
+       first
+         | (simp only [Frag.mk.injEq] at h; obtain ⟨h1, h2⟩ := h; subst h1; subst h2)
+         | subst h
+         | skip))
+  simp (config := {decide := true}) only [uint_keep, boolC_keep, forall_const,
+     envNat_cons, String.reduceBEq, Bool.false_eq_true, if_false, if_true, natOf_nat,
+     shardHashesK (leaf := SrcBlk.ShardDescr) (refines_ShardDescr.toP PT).toE, refines_ConfigParams.keep, refines_ValidatorInfo.keep,
+     refines_OldMcBlocksInfo.keep, optK refines_ExtBlkRef nonUnit_extBlkRef, Tx.refines_CurrencyCollection.keep,
+     condK refines_BlockCreateStats nonUnit_blockCreateStats] at *
+  simp [*, SrcBlk.McStateExtra, view_McStateExtra, view_ShardHashes, Val.get, List.lookup, Rd.truthy, Rd.obj, Rd.str, Rd.veq, Rd.bytesLit,
+      loadBytes_cons, takeBits_zero, takeBits_succ, natOfBits, natToBits, vle_nat_one, lowBit_nat, bind_some_eta, loadRef_cons, special_mk,
+      beginParse_mk]
+
 end TonVerif.Tlb.Blk
